@@ -14,6 +14,9 @@ repair is a separate small patch to /repo, and each place is marked `REPAIRED #n
   #15 nested.go SeqContext2.apply `l.Rules[ruleIdx]` unchecked class index
   #15 gpos4.go, gpos6.go apply  `BaseArray[baseIdx][markRecord.Class]` unchecked mark class
   #33 layout.go fixStackMerge   `EndPos` not reduced by merged glyphs after the last input
+  C06-ch3 nested.go ChainedSeqContext3.apply recorded the first input position twice in `InputPos`
+  #32 layout.go Apply           GSUB type 8 lookups were applied front to back
+  C06-attach gpos4.go, gpos6.go the mark offsets ignored the offsets of the glyph attached to
 
 Every Go index expression that is not dominated by a guard is an `idx`/`idxI` here and
 yields `panic site`; running out of the explicit fuel yields `err "fuel"` (proved impossible
@@ -173,7 +176,7 @@ def firstRule (kp : Nat → Bool) (st : St) (a : Nat) (b : Int) (mb mi ml : Nat 
     | none => firstRule kp st a b mb mi ml rs
 
 /-- input loop of `ChainedSeqContext3.apply` (it tests the glyph at `p` first, then skips).
-Note that the caller starts `matchPos` with `a` and this loop appends `a` again. -/
+Before the repair C06-ch3 the caller started `matchPos` with `a` and this loop appended `a` again. -/
 def chain3Input (kp : Nat → Bool) (seq : List Glyph) :
     List GSet → Nat → Int → Outcome (Option (List Nat × Nat))
   | [], p, _ => .ok (some ([], p))
@@ -243,10 +246,18 @@ def findBase (cov : Cov) : List Glyph → Int → Option (Nat × Int)
     | some i => some (i, acc + g.adv)
     | none => findBase cov rest (acc + g.adv)
 
-/-- `Gpos4_1.apply` (`add = true`: `XOffset += dx`) and `Gpos6_1.apply` (`add = false`:
-`XOffset = dx`).  REPAIRED #15: a mark class outside the anchor row does not apply (was: index
-panic on tables the reader delivers). -/
-def applyMark (add : Bool) (st : St) (a : Nat) (markCov baseCov : Cov) (marks : List MarkRec)
+/-- offsets of the first covered glyph of `seq[a-1], seq[a-2], …` (the glyph `findBase` stops at) -/
+def baseOffsets (cov : Cov) : List Glyph → Int × Int
+  | [] => (0, 0)
+  | g :: rest => if covHas cov g.gid then (g.xoff, g.yoff) else baseOffsets cov rest
+
+/-- `Gpos4_1.apply` (`add = true`) and `Gpos6_1.apply` (`add = false`).
+REPAIRED #15: a mark class outside the anchor row does not apply (was: index panic on tables
+the reader delivers).
+REPAIRED C06-attach: both set `XOffset = seq[p].XOffset + dx`, `YOffset = seq[p].YOffset + dy`,
+the attachment points coincide (was: 4.1 `XOffset += dx`, 6.1 `XOffset = dx`, neither looked
+at the offsets of the glyph attached to).  The flag `add` no longer matters. -/
+def applyMark (_add : Bool) (st : St) (a : Nat) (markCov baseCov : Cov) (marks : List MarkRec)
     (bases : List (List Anchor)) : Outcome (Option (St × Nat)) := do
   let g ← idx "gpos4/6:seq[a]" st.seq a
   match covGet markCov g.gid with
@@ -264,8 +275,9 @@ def applyMark (add : Bool) (st : St) (a : Nat) (markCov baseCov : Cov) (marks : 
         if br.x == 0 && br.y == 0 then .ok none else
         let dx : Int := br.x - mr.x - advs
         let dy : Int := br.y - mr.y
-        let xo := if add then wrap16 (g.xoff + dx) else wrap16 dx
-        let yo := if add then wrap16 (g.yoff + dy) else wrap16 dy
+        let bo := baseOffsets baseCov (st.seq.take a).reverse
+        let xo := wrap16 (bo.1 + dx)
+        let yo := wrap16 (bo.2 + dy)
         .ok (some ({ st with seq := st.seq.set a { g with xoff := xo, yoff := yo } }, a + 1))
 
 /-! ## subtable.apply(ctx, a, b) -/
@@ -377,7 +389,9 @@ def applySub (kp : Nat → Bool) (st : St) (a : Nat) (b : Int) :
     | some (ps, next) =>
       match ← chain3Input kp st.seq look next st.seq.length with
       | none => .ok none
-      | some _ => .ok (some (pushMatch st (a :: ps) actions next, next))
+      -- REPAIRED C06-ch3: `InputPos` is `ps` (was `a :: ps`: `matchPos` started as `[a]` and the
+      -- input loop appended `a` again, so sequence index 1 addressed the first input glyph)
+      | some _ => .ok (some (pushMatch st ps actions next, next))
   | .gpos11 cov adj => do
     let g ← idx "gpos11:seq[a]" st.seq a
     if !covHas cov g.gid then .ok none else
@@ -518,6 +532,31 @@ def lookupLoop (B : Nat) (ll : LookupList) (gd : Gdef) (lk : Lookup) : Nat → S
         lookupLoop B ll gd lk fuel st1 p2
     else .ok st
 
+/-- `s.(*Gsub8_1)` -/
+def Subtable.isRev81 : Subtable → Bool
+  | .gsub81 _ _ _ _ => true
+  | _ => false
+
+/-- `isReverseLookup`: at least one subtable and all of them GSUB 8.1 -/
+def Lookup.reverse (lk : Lookup) : Bool := !lk.subtables.isEmpty && lk.subtables.all Subtable.isRev81
+
+/-- REPAIRED #32: the `for pos := len(ctx.seq) - 1; pos >= 0; pos--` loop of a reverse lookup
+(GSUB type 8 was applied front to back).  The first argument is `pos + 1`. -/
+def revLoop (gd : Gdef) (lk : Lookup) : Nat → St → Outcome St
+  | 0, st => .ok st
+  | pos + 1, st => do
+    let g ← idx "Apply:seq[pos]" st.seq pos
+    if lk.keep gd g.gid then
+      match ← applyAt (lk.keep gd) st pos st.seq.length lk.subtables with
+      | some (st1, _) => revLoop gd lk pos st1
+      | none => revLoop gd lk pos st
+    else revLoop gd lk pos st
+
+/-- the body of the loop of `Context.Apply` for one lookup -/
+def applyLookup (B : Nat) (ll : LookupList) (gd : Gdef) (lk : Lookup) (st : St) : Outcome St :=
+  if lk.reverse then revLoop gd lk st.seq.length st
+  else lookupLoop B ll gd lk st.seq.length st 0
+
 /-- `Context.Apply`: the lookups of `ctx.lookups` in order; indices outside the lookup list
 are skipped.  The stack persists from call to call, as in the Go `Context`. -/
 def applyLookups (B : Nat) (ll : LookupList) (gd : Gdef) : List Nat → St → Outcome St
@@ -526,7 +565,7 @@ def applyLookups (B : Nat) (ll : LookupList) (gd : Gdef) : List Nat → St → O
     match ll[i]? with
     | none => applyLookups B ll gd is st
     | some lk => do
-      let st1 ← lookupLoop B ll gd lk st.seq.length st 0
+      let st1 ← applyLookup B ll gd lk st
       applyLookups B ll gd is st1
 
 /-- one call `ctx.Apply(seq)` on a context whose stack is `stack` -/
